@@ -1543,6 +1543,14 @@ fn final_oracles(
             }
         }
     }
+    // ---- C10: everything queued is transmitted before the write side is closed
+    if let Some(co) = s.close_first_order {
+        if !s.failed && fault.is_none() {
+            if let Some(x) = s.sent.iter().find(|x| x.order > co) {
+                out.viols.push(Viol::new("C10", "transmitted-after-close", format!("the dispatch started closing the write side while {:?} was still queued (it was handed to the transport afterwards)", x.item)));
+            }
+        }
+    }
     // ---- C10 client shutdown
     let everything_over = callers.iter().all(|c| c.fut.is_none());
     if dispatch_alive {
